@@ -143,7 +143,19 @@ class CeluPlugin(PrimitiveLeafPlugin):
         ) -> Callable[..., ArrayLike]:
             if orig is None:
                 raise RuntimeError("Original jax.nn.celu not found")
-            return lambda *args, **kwargs: cls._PRIM.bind(*args, **kwargs)
+
+            def _patched(x: ArrayLike, *args: object, **kwargs: object) -> ArrayLike:
+                # jax.nn.celu(x, alpha) also takes its parameter positionally;
+                # only ``x`` is an operand of the primitive.
+                if len(args) > 1 or (args and "alpha" in kwargs):
+                    raise TypeError(
+                        "celu() takes x and an optional alpha argument"
+                    )
+                if args:
+                    kwargs["alpha"] = args[0]
+                return cls._PRIM.bind(x, **kwargs)
+
+            return _patched
 
         return [
             AssignSpec("jax.nn", "celu_p", cls._PRIM, delete_if_missing=True),
